@@ -446,6 +446,72 @@ def rule_semantics_of_helpers(repo, rep):
     from ..cfg import cfg_of
     from ..exprnorm import conjuncts
 
+    # (0) a constraint whose text is conditional ("If <X> axis is reduced ...", "If a fused activation function is present ...")
+    #     consults its condition: otherwise it also rejects operators that are inside the documented rule
+    n_c = 0
+    for mname, cls in (("tflite_model_semantic", "TFLiteSemantic"), ("tflite_supported_operators", "TFLiteSupportedOperators")):
+        m = repo.mod(mname)
+        for q, fn in m.functions.items():
+            if not q.startswith(cls + ".constraint_"):
+                continue
+            doc = ast.get_docstring(fn) or ""
+            src = str(norm(fn))
+            mm = re.match(r"If (Width|Height|Depth|Batch) axis is reduced", doc)
+            if mm:
+                n_c += 1
+                # the verdict must depend (data or control) on the axis operand
+                tainted = set()
+                for _ in range(4):
+                    for st in ast.walk(fn):
+                        if isinstance(st, ast.Assign):
+                            dep = "op.inputs[1]" in str(norm(st.value)) or any(isinstance(x, ast.Name) and x.id in tainted for x in ast.walk(st.value))
+                            if dep:
+                                tainted |= {x.id for t_ in st.targets for x in ast.walk(t_) if isinstance(x, ast.Name)}
+                        if isinstance(st, ast.If) and ("op.inputs[1]" in str(norm(st.test)) or any(isinstance(x, ast.Name) and x.id in tainted for x in ast.walk(st.test))):
+                            for b in st.body + st.orelse:
+                                for a_ in ast.walk(b):
+                                    if isinstance(a_, ast.Assign):
+                                        tainted |= {x.id for t_ in a_.targets for x in ast.walk(t_) if isinstance(x, ast.Name)}
+                rets = [r for r in ast.walk(fn) if isinstance(r, ast.Return) and r.value is not None]
+                verdicts = [r.value.elts[0] if isinstance(r.value, ast.Tuple) and r.value.elts else r.value for r in rets]
+                guarded_return = any(isinstance(i_, ast.If) and ("op.inputs[1]" in str(norm(i_.test)) or any(isinstance(x, ast.Name) and x.id in tainted for x in ast.walk(i_.test)))
+                                     and any(isinstance(r_, ast.Return) for b in i_.body + i_.orelse for r_ in ast.walk(b)) for i_ in ast.walk(fn))
+                depends = bool(verdicts) and (guarded_return or any("op.inputs[1]" in str(norm(v)) or any(isinstance(x, ast.Name) and x.id in tainted for x in ast.walk(v)) for v in verdicts))
+                rep.check(depends, "C16-b", f"ethosu/vela/{mname}.py:{q}", f"'{doc.splitlines()[0][:60]}': the axis operand decides whether the limit applies",
+                          f"the verdict does not depend on the axis operand (op.inputs[1]): the {mm.group(1).lower()} limit is applied to every MEAN, so an operator that does not reduce that axis and is "
+                          "inside all listed constraints stays on the CPU (demonstrated: MEAN over H of [1,2,5000,1])")
+            elif doc.startswith("If a fused activation function is present"):
+                n_c += 1
+                rep.check("op.activation" in src, "C16-b", f"ethosu/vela/{mname}.py:{q}", "the fused-activation condition is consulted", "op.activation is never read")
+    if n_c < 2:
+        raise AnalysisError(f"conditional constraints: only {n_c} found")
+    # ... and the other way round: a constraint that only applies under one padding mode (`if op.attrs["padding"] == Padding.X:`
+    # ... otherwise `return True`) says so in its text ("X padding: ..."), as its siblings do; otherwise the report lists a rule
+    # that operators with the other padding may break and still be placed on the NPU
+    n_p = 0
+    for mname, cls in (("tflite_model_semantic", "TFLiteSemantic"), ("tflite_supported_operators", "TFLiteSupportedOperators")):
+        m = repo.mod(mname)
+        for q, fn in m.functions.items():
+            if not q.startswith(cls + ".constraint_"):
+                continue
+            body = [st for st in fn.body if not (isinstance(st, ast.Expr) and isinstance(st.value, ast.Constant))]
+            if not (len(body) == 2 and isinstance(body[0], ast.If) and isinstance(body[1], ast.Return)):
+                continue
+            t = body[0].test
+            if not (isinstance(t, ast.Compare) and str(norm(t.left)) == "op.attrs['padding']" and isinstance(t.ops[0], ast.Eq) and str(norm(t.comparators[0])).startswith("Padding.")):
+                continue
+            rv = body[1].value
+            if not (isinstance(rv, ast.Tuple) and isinstance(rv.elts[0], ast.Constant) and rv.elts[0].value is True):
+                continue
+            mode = str(norm(t.comparators[0])).split(".")[-1]
+            doc = ast.get_docstring(fn) or ""
+            n_p += 1
+            rep.check(doc.startswith(f"{mode} padding:"), "C16-b", f"ethosu/vela/{mname}.py:{q}", f"a constraint enforced only for {mode} padding says so in its text ('{mode} padding: ...')",
+                      f"text is '{doc.splitlines()[0][:70]}' without the condition: the report lists it unconditionally, so an operator with the other padding mode that breaks it is still placed on the NPU "
+                      "(demonstrated: AVERAGE_POOL_2D, VALID, 10x10 kernel)")
+    if n_p < 4:
+        raise AnalysisError(f"padding-conditional constraints: only {n_p} found")
+
     # (1) negative axis: a valid model may give axis = -1; constraints indexing with it must add the rank first
     n = 0
     for mname, cls in (("tflite_model_semantic", "TFLiteSemantic"), ("tflite_supported_operators", "TFLiteSupportedOperators")):
